@@ -72,16 +72,21 @@ def prodDrExp (a : Vec α (A.dof + B.dof)) : Mat α (A.dof + B.dof) (A.dof + B.d
   bdiag (A.dr_exp (fst a)) (B.dr_exp (snd a))
 def prodDrExpinv (a : Vec α (A.dof + B.dof)) : Mat α (A.dof + B.dof) (A.dof + B.dof) :=
   bdiag (A.dr_expinv (fst a)) (B.dr_expinv (snd a))
+/- The two Hessians: bundle.hpp ZEROES the output and each part WRITES its placed block (rows `[off, off+d)`); nothing is
+   added.  A row below `A.dof` can only be in `A`'s block, a row from `A.dof` on only in `B`'s — so the entry is the one
+   placement or the other (and `nat 0` when the placement has nothing there).  (Until the source tie of tools/gen_bundle.py
+   the model summed the two placements: equal over ℝ, but `x + 0` is arithmetic the code does not perform and it turned a
+   `-0.0` entry of a part Hessian into `+0.0`.) -/
 def prodD2rExp (a : Vec α (A.dof + B.dof)) :
     Mat α (A.dof + B.dof) ((A.dof + B.dof) * (A.dof + B.dof)) :=
   let HA := memoM (A.d2r_exp (fst a))
   let HB := memoM (B.d2r_exp (snd a))
-  (.of (fun R C => hessPlace (A.dof + B.dof) 0 HA R C + hessPlace (A.dof + B.dof) A.dof HB R C))
+  (.of (fun R C => if R.val < A.dof then hessPlace (A.dof + B.dof) 0 HA R C else hessPlace (A.dof + B.dof) A.dof HB R C))
 def prodD2rExpinv (a : Vec α (A.dof + B.dof)) :
     Mat α (A.dof + B.dof) ((A.dof + B.dof) * (A.dof + B.dof)) :=
   let HA := memoM (A.d2r_expinv (fst a))
   let HB := memoM (B.d2r_expinv (snd a))
-  (.of (fun R C => hessPlace (A.dof + B.dof) 0 HA R C + hessPlace (A.dof + B.dof) A.dof HB R C))
+  (.of (fun R C => if R.val < A.dof then hessPlace (A.dof + B.dof) 0 HA R C else hessPlace (A.dof + B.dof) A.dof HB R C))
 
 def prod : LieModel α where
   rep := A.rep + B.rep
